@@ -356,6 +356,11 @@ class DynGraph(nx.Graph):
             raise ValueError("The specified interaction extension is broader than "
                              "the ones already present for the given nodes.")
 
+        # the pair is unordered: keep logging its events under the orientation of its first appearance
+        if u in self._adj and v in self._adj[u] and \
+                (v, u, "+") in self.time_to_edge[self._adj[u][v]['t'][0][0]]:
+            u, v = v, u
+
         if u not in self._node:
             self._adj[u] = self.adjlist_inner_dict_factory()
             self._node[u] = {}
